@@ -36,6 +36,7 @@ type Interpreter struct {
 	rateCounters  map[string]*value.Ratecounter
 	penaltyBoxes  map[string]*value.Penaltybox
 	callStack     []*ast.SubroutineDeclaration
+	includeStack  []string // modules being included, to detect include cycles
 	Debugger      Debugger
 	IdentResolver func(v string) value.Value
 
